@@ -383,6 +383,104 @@ def job_mergeable_config(jc):
 
 
 
+# ------------------------------------------------------------ maximum_color's build graph: gid-named files keep their numbering
+
+
+def _mc_graph(table, bitmaps, keep_names, colr_version=1):
+    """the real maximum_color._run with a recording ninja writer -> build edges"""
+    import os
+    import shutil
+    import tempfile
+    import types
+    from pathlib import Path
+    from absl import flags
+    from harness import C20
+    from nanoemoji.config import FontConfig
+
+    C20.ensure_flags()
+    d = tempfile.mkdtemp(prefix="c12_")
+    saved_flags = (flags.FLAGS.build_dir, flags.FLAGS.bitmaps, flags.FLAGS.colr_version)
+    saved = (MC.ttLib, MC.colr_glyphs, MC.svg_glyphs, MC.config, MC.NinjaWriter, MC.maybe_run_ninja, MC._vector_color_table)
+    try:
+        inp = Path(d) / "In.ttf"
+        inp.write_bytes(b"x")
+        flags.FLAGS.build_dir, flags.FLAGS.bitmaps, flags.FLAGS.colr_version = os.path.join(d, "build"), bitmaps, colr_version
+        MC.ttLib = types.SimpleNamespace(TTFont=lambda *a, **k: {})
+        MC.colr_glyphs = lambda f: [2, 3, 5]
+        MC.svg_glyphs = lambda f: [(2, None), (3, None), (5, None)]
+        MC.config = types.SimpleNamespace(load=lambda *a, **k: FontConfig()._replace(output_file="Out.ttf", keep_glyph_names=keep_names), FontConfig=FontConfig)
+        MC.NinjaWriter = C20.RecWriter
+        MC.maybe_run_ninja = lambda f: None
+        MC._vector_color_table = lambda f: table
+        MC._run(["prog", str(inp)])
+        return [dict(e) for e in C20.RecWriter.last.edges], str(inp)
+    finally:
+        (MC.ttLib, MC.colr_glyphs, MC.svg_glyphs, MC.config, MC.NinjaWriter, MC.maybe_run_ninja, MC._vector_color_table) = saved
+        flags.FLAGS.build_dir, flags.FLAGS.bitmaps, flags.FLAGS.colr_version = saved_flags
+        shutil.rmtree(d, ignore_errors=True)
+
+
+def _mc_numbering_problems(edges, input_font):
+    """Glyph-order classes through the graph: files named by glyph id (…/00002.svg and what is derived from them) carry
+    the class of the font they were numbered in; keep/strip/copy and adding COLR/CBDT keep a font's glyph order, adding
+    an SVG table may reorder it (glue_together._copy_svg).  write_glyphmap_for_glyph_svgs turns ids back into names: the
+    font it is given must be of the class its gid-named inputs were numbered in."""
+    cls = {input_font: "input order"}
+    problems = []
+    for e in edges:
+        ins, outs, rule = e["inputs"], e["outputs"], e["rule"]
+        known = [cls[i] for i in ins if i in cls]
+        if rule in ("keep_glyph_names", "strip_glyph_names", "copy", "generate_svgs_from_colr", "extract_svgs_from_otsvg", "picosvg", "write_bitmap"):
+            for o in outs:
+                cls[o] = known[0] if known else "?"
+        elif rule == "glue_together":
+            target = str(e["variables"].get("target_font"))
+            tc = cls.get(target, cls.get(next((i for i in e["implicit"] if i.endswith(target)), ""), "?"))
+            for o in outs:
+                cls[o] = f"reordered by adding SVG to {target}" if e["variables"].get("color_table") == "SVG" else tc
+        elif rule == "write_glyphmap_for_glyph_svgs":
+            fonts = [i for i in ins if i.endswith(".ttf")]
+            files = [i for i in ins if not i.endswith(".ttf")]
+            if len(fonts) != 1:
+                problems.append({"edge": outs, "fonts": fonts})
+                continue
+            fc = cls.get(fonts[0], cls.get(next((k for k in cls if k.endswith("/" + fonts[0]) or k == fonts[0]), ""), "?"))
+            for f in files:
+                if cls.get(f, "?") != fc:
+                    problems.append({"glyphmap": outs, "gid-named file": f, "numbered in": cls.get(f, "?"), "names looked up in": fonts[0], "whose glyph order is": fc})
+                    break
+    return problems
+
+
+def replay_mc_graph(inp):
+    edges, font = _mc_graph(inp["table"], bool(inp["bitmaps"]), bool(inp["keep"]), int(inp.get("colr_version", 1)))
+    bad = _mc_numbering_problems(edges, font)
+    return {"problems": bad[:3]} if bad else None
+
+
+def job_mc_graph(jc):
+    jc.encode(MC._run, MC._generate_cbdt, MC._generate_additional_color_table, MC._generate_svg_from_colr, MC._generate_colr_from_svg)
+    table = jc.params["table"]
+    inp = {"table": table, "bitmaps": core.SymNum(z3.Int("bitmaps")), "keep": core.SymNum(z3.Int("keep")), "colr_version": core.SymNum(z3.Int("colr_version"))}
+
+    def body():
+        b, k, v = core.integer("bitmaps", 0, 1).concretize(), core.integer("keep", 0, 1).concretize(), core.integer("colr_version", 0, 1).concretize()
+        edges, font = _mc_graph(table, bool(b), bool(k), v)
+        return edges, font
+
+    results = jc.explore(body, max_paths=50)
+    for r in results:
+        if not jc.no_exception(r, inp, replay_mc_graph, "C12:graph:raises"):
+            continue
+        edges, font = r.value
+        jc.reach(r, "ok")
+        bad = _mc_numbering_problems(edges, font)
+        n_glyphmaps = sum(1 for e in edges if e["rule"] == "write_glyphmap_for_glyph_svgs")
+        jc.prove(r, z3.BoolVal(not bad and n_glyphmaps >= 1), "files named by glyph id are turned back into glyph names with the font they were numbered in (every glyphmap edge of the build graph)", inp, replay_mc_graph, key="C12:graph:numbering")
+    jc.expect_reached("ok")
+
+
+
 def copy_svg_jobs(tier):
     perms = [tuple(range(len(NAMES))), (0, 6, 5, 4, 3, 2, 1), (0, 3, 1, 5, 2, 6, 4)]
     if tier != "quick":
@@ -400,6 +498,8 @@ def jobs(tier):
     js.append(Job("extract svg_glyphs", job_svg_glyphs))
     js.append(Job("WriteFontInputs mapping", job_inputs_mapping))
     js.append(Job("mergeable config metrics", job_mergeable_config))
+    for table in ("COLR", "SVG "):
+        js.append(Job(f"maximum_color graph[{table.strip()} input]", job_mc_graph, table=table))
     for t in ("Transform>glyph>solid", "Translate>Scale>glyph", "glyph>linear", "glyph>radial", "layers(+nested,currentColor,composite glyph)", "group-opacity composite", "PaintColrGlyph", "three glyphs sharing a gradient"):
         js.append(Job(f"colr->svg[{t}]", C13.job_c13, template=t, viewbox="150off", npal=1))
     js.append(Job("colr0->svg", C13.job_colr0, viewbox="150off", npal=1))
